@@ -2,9 +2,15 @@ module verifharness
 
 go 1.21
 
-require github.com/256dpi/gomqtt v0.0.0
+require (
+	github.com/256dpi/gomqtt v0.0.0
+	github.com/gorilla/websocket v1.4.1
+)
 
-require github.com/256dpi/mercury v0.2.0 // indirect
+require (
+	github.com/256dpi/mercury v0.2.0 // indirect
+	gopkg.in/tomb.v2 v2.0.0-20161208151619-d5d1b5820637 // indirect
+)
 
 replace github.com/256dpi/gomqtt => /repo
 
